@@ -283,18 +283,42 @@ Proof.
   repeat match goal with
          | |- pres (if ?c then _ else _) _ => destruct c
          end;
-    first [ apply pres_num_builtin | apply pres_cell_builtin; exact Hput
-          | apply pres_string_length | apply pres_string_ref | apply pres_string_set
-          | apply pres_string_copy | apply pres_string_fill | apply pres_string_list
-          | apply pres_string_vector | apply pres_vector_string | apply pres_list_string
-          | apply pres_string_ | apply pres_make_string | apply pres_string_append
-          | apply pres_string_cmp | apply pres_string_ci_cmp
-          | apply pres_string_upcase | apply pres_string_downcase | apply pres_string_foldcase
-          | apply pres_char_to_integer | apply pres_integer_to_char
-          | apply pres_char_is_alphabetic | apply pres_char_is_numeric | apply pres_char_is_whitespace
-          | apply pres_char_is_upper_case | apply pres_char_is_lower_case
-          | apply pres_char_upcase | apply pres_char_downcase | apply pres_char_foldcase
-          | apply pres_digit_value | apply pres_char_cmp | apply pres_char_ci_cmp
-          | apply pres_b_string_symbol | apply pres_b_symbol_string | apply pres_b_symbol_eq
-          | apply Hlv ].
+    lazymatch goal with
+    | |- pres (num_builtin _) _ => apply pres_num_builtin
+    | |- pres (cell_builtin _) _ => apply pres_cell_builtin; exact Hput
+    | |- pres (lv_builtin _) _ => apply Hlv
+    | |- pres Str.string_length _ => exact pres_string_length
+    | |- pres Str.string_ref _ => exact pres_string_ref
+    | |- pres Str.string_set _ => exact pres_string_set
+    | |- pres Str.string_copy _ => exact pres_string_copy
+    | |- pres Str.string_fill _ => exact pres_string_fill
+    | |- pres Str.string_list _ => exact pres_string_list
+    | |- pres Str.string_vector _ => exact pres_string_vector
+    | |- pres Str.vector_string _ => exact pres_vector_string
+    | |- pres Str.list_string _ => exact pres_list_string
+    | |- pres Str.string_ _ => exact pres_string_
+    | |- pres Str.make_string _ => exact pres_make_string
+    | |- pres Str.string_append _ => exact pres_string_append
+    | |- pres (Str.string_cmp _) _ => apply pres_string_cmp
+    | |- pres (Str.string_ci_cmp _) _ => apply pres_string_ci_cmp
+    | |- pres Str.string_upcase _ => exact pres_string_upcase
+    | |- pres Str.string_downcase _ => exact pres_string_downcase
+    | |- pres Str.string_foldcase _ => exact pres_string_foldcase
+    | |- pres Str.char_to_integer _ => exact pres_char_to_integer
+    | |- pres Str.integer_to_char _ => exact pres_integer_to_char
+    | |- pres Str.char_is_alphabetic _ => exact pres_char_is_alphabetic
+    | |- pres Str.char_is_numeric _ => exact pres_char_is_numeric
+    | |- pres Str.char_is_whitespace _ => exact pres_char_is_whitespace
+    | |- pres Str.char_is_upper_case _ => exact pres_char_is_upper_case
+    | |- pres Str.char_is_lower_case _ => exact pres_char_is_lower_case
+    | |- pres Str.char_upcase _ => exact pres_char_upcase
+    | |- pres Str.char_downcase _ => exact pres_char_downcase
+    | |- pres Str.char_foldcase _ => exact pres_char_foldcase
+    | |- pres Str.digit_value _ => exact pres_digit_value
+    | |- pres (Str.char_cmp _) _ => apply pres_char_cmp
+    | |- pres (Str.char_ci_cmp _) _ => apply pres_char_ci_cmp
+    | |- pres b_string_symbol _ => exact pres_b_string_symbol
+    | |- pres b_symbol_string _ => exact pres_b_symbol_string
+    | |- pres b_symbol_eq _ => exact pres_b_symbol_eq
+    end.
 Qed.
